@@ -745,6 +745,7 @@ func ruleMuxSer(c *Ctx) {
 	}
 	// the knocked stream is handed to the channel registered for that id
 	okRoute := false
+	routeDrops := ""
 	ast.Inspect(sm.Body, func(x ast.Node) bool {
 		ss, ok := x.(*ast.SendStmt)
 		if !ok {
@@ -754,11 +755,36 @@ func ruleMuxSer(c *Ctx) {
 			for _, el := range cl.Elts {
 				if kv, ok := el.(*ast.KeyValueExpr); ok && identObj(sinfo, kv.Value) == connV {
 					okRoute = true
+					// the hand-off must wait for the listener: a send that can give up
+					// (default or timer arm) drops a stream whose listener has not yet
+					// reached Accept, and the dialer's first call fails
+					if cc, inSel := p.Parent(ss).(*ast.CommClause); inSel && cc.Comm == ast.Stmt(ss) {
+						if body, ok := p.Parent(cc).(*ast.BlockStmt); ok {
+							for _, other := range body.List {
+								oc := other.(*ast.CommClause)
+								if oc == cc {
+									continue
+								}
+								if oc.Comm == nil {
+									routeDrops = "a default arm"
+								} else if u := recvChanOf(oc.Comm); u != nil {
+									if isT, _ := p.isTimerChan(sm, u); isT {
+										routeDrops = "a timer arm"
+									}
+								}
+							}
+						}
+					}
 				}
 			}
 		}
 		return true
 	})
+	if okRoute && routeDrops != "" {
+		c.R.Violate("R-MUXSER", p.Pos(sm.Node()), sm.Name, "knocked stream waits for its listener", "the hand-off of the accepted stream to the knocked id's listener has "+routeDrops+": when the brokered server has not reached Accept yet the stream is dropped and the first call on the dialled connection fails", nil)
+	} else if okRoute {
+		c.R.Hold("R-MUXSER", p.Pos(sm.Node()), sm.Name, "knocked stream waits for its listener", "the hand-off is a send that cannot give up", true)
+	}
 	if okRoute {
 		c.R.Hold("R-MUXSER", p.Pos(sm.Node()), sm.Name, "knocked stream handed to its listener", "", true)
 	} else {
@@ -805,4 +831,21 @@ func (p *Prog) failsOnEveryPath(f *Func, start *Node) bool {
 		}
 	}
 	return n > 0
+}
+
+// recvChanOf returns the channel operand of a receive comm statement.
+func recvChanOf(comm ast.Stmt) ast.Expr {
+	switch cm := comm.(type) {
+	case *ast.ExprStmt:
+		if u, ok := ast.Unparen(cm.X).(*ast.UnaryExpr); ok && u.Op == token.ARROW {
+			return u.X
+		}
+	case *ast.AssignStmt:
+		if len(cm.Rhs) == 1 {
+			if u, ok := ast.Unparen(cm.Rhs[0]).(*ast.UnaryExpr); ok && u.Op == token.ARROW {
+				return u.X
+			}
+		}
+	}
+	return nil
 }
